@@ -68,7 +68,11 @@ pub const CONTEXTS: &[(&str, &str)] = &[
     // binding forms that bind a PROCEDURE (a closure over the loop's frame, made every round)
     ("let-binding-a-lambda", "(let ((h (lambda () n))) CALL)"),
     ("let*-binding-a-lambda", "(let* ((t 1) (h (lambda () (list t n)))) CALL)"),
+    // three sequentially dependent bindings
+    ("let*-3-dependent", "(let* ((t n) (t2 t) (t3 (- t2 t))) CALL)"),
     ("apply", "APPLYCALL"),
+    // apply with the first operand given individually (in front of the list)
+    ("apply-leading-argument", "APPLYSPREAD"),
 ];
 
 /// loop shapes: (name, definitions with BODY placeholders, start call, call templates)
@@ -148,6 +152,18 @@ fn build(shape: &Shape, k: usize, ctxs: &[usize], next: &str) -> String {
     let (name, tpl) = CONTEXTS[ctxs[0]];
     match name {
         "cond-=>" | "case-=>" => tpl.replace("(- n 1)", next).replace("MCALL", &build(shape, k, &ctxs[1..], "m")),
+        "apply-leading-argument" => {
+            // (apply OP FIRST (list REST...)); the arguments are written NEXT then one more operand
+            let a = args.replace("NEXT", next);
+            let parts = crate::sexp::parse_all(&a);
+            let first = parts.first().map(|x| x.to_string()).unwrap_or_default();
+            let rest: Vec<String> = parts.iter().skip(1).map(|x| x.to_string()).collect();
+            if ctxs.len() == 1 {
+                format!("(apply {} {} (list {}))", op, first, rest.join(" "))
+            } else {
+                format!("(apply (lambda (z) {}) 0 '())", build(shape, k, &ctxs[1..], next))
+            }
+        }
         "apply" => {
             if ctxs.len() == 1 {
                 format!("(apply {} (list {}))", op, args.replace("NEXT", next))
@@ -259,7 +275,7 @@ pub fn judge(r: &LoopResult, n: u32, expected: i64, ctx_names: &[&str]) -> Verdi
     // the host stack grows linearly; the result (when the stack suffices) is right, the heap flat
     // (the frames pending on the host stack also keep their heap alive)
     let _ = heap_growth;
-    let known = if ctx_names.contains(&"apply") && stack_growth > 0 && (result_ok || format!("{}", r.outcome).contains("Extension")) { Some("apply-in-tail-position-uses-host-stack") } else { None };
+    let known = if (ctx_names.contains(&"apply") || ctx_names.contains(&"apply-leading-argument")) && stack_growth > 0 && (result_ok || format!("{}", r.outcome).contains("Extension")) { Some("apply-in-tail-position-uses-host-stack") } else { None };
     Verdict::Bad(": constant stack and heap per iteration, closed-form result".into(), problems.join("; "), known)
 }
 
